@@ -430,7 +430,25 @@ func (e *Engine) Branch(c sym) bool {
 
 func (e *Engine) checkBudget() {
 	if !e.Deadline.IsZero() && time.Now().After(e.Deadline) {
-		panic(infraError{"budget: wall-clock deadline exceeded"})
+		desc := ""
+		for _, g := range e.gors {
+			st := "runnable"
+			if g.done {
+				st = "done"
+			} else if g.ready != nil {
+				st = "blocked on " + g.what
+			}
+			top := ""
+			stack := g.stack
+			if g == e.cur {
+				stack = callFns
+			}
+			if len(stack) > 0 {
+				top = stack[len(stack)-1].String()
+			}
+			desc += fmt.Sprintf(" [g%d %s top=%s]", g.id, st, top)
+		}
+		panic(infraError{"budget: wall-clock deadline exceeded;" + desc})
 	}
 }
 
